@@ -67,11 +67,10 @@ impl Property for C18 {
         // returns that outnumber calls, then an error: the rendering path of step()'s error decoration
         v.push(Case { prog: vec![PI::Ret, PI::Ret, PI::Ret, PI::Ret], seed: 1, preseed: vec![1, 2, 3], limit: 50, flags: 0, deep: 0 });
         v.push(Case { prog: vec![PI::Ret, PI::Ret, PI::Jmp { to: 9, short: false }], seed: 2, preseed: vec![1, 2], limit: 50, flags: 0, deep: 0 });
-        // moderately deep recursion with rendering, and (thorough) the i16 nesting-level boundary without rendering
+        // moderately deep recursion with rendering, and the i16 nesting-level boundary without rendering
         v.push(Case { prog: vec![PI::Call { to: 0 }], seed: 3, preseed: vec![], limit: 600, flags: 0, deep: 600 });
-        if tier == Tier::Thorough {
-            v.push(Case { prog: vec![PI::Call { to: 0 }], seed: 4, preseed: vec![], limit: 33_500, flags: 0, deep: 33_500 });
-        }
+        v.push(Case { prog: vec![PI::Call { to: 0 }], seed: 4, preseed: vec![], limit: 33_500, flags: 0, deep: 33_500 });
+        let _ = tier;
         v
     }
     fn decode(&mut self, tape: &TapeVal) -> Case {
@@ -293,7 +292,7 @@ impl Property for C18 {
     }
 
     fn rule(&self) -> String {
-        "cases: slot-grid programs of 2–28 instructions weighted towards Jcc/JMP rel8|rel32, JMP/CALL through a register, CALL rel32, RET, JRCXZ and flag-setting ALU ops, with 0–5 pre-seeded return addresses (so unmatched RETs land in code), run ≤300 steps incl. runs that end in an error; fixed: RET chains that outnumber calls and then fail, recursion 600 deep with rendering, and (thorough) 33 500 deep across the i16 level boundary; oracle: an independent tracer (own decoder, own condition table) builds the expected entries (source, target, kind, level, repeat count) and call stack, compared with the structured views after every step; trace(), call_stack() and to_string() must return after every step and after the final error, with one trace line per entry; non-trivial = ≥1 call, ≥1 taken and ≥1 untaken conditional branch; distinct by hash(case)".into()
+        "cases: slot-grid programs of 2–28 instructions weighted towards Jcc/JMP rel8|rel32, JMP/CALL through a register, CALL rel32, RET, JRCXZ and flag-setting ALU ops, with 0–5 pre-seeded return addresses (so unmatched RETs land in code), run ≤300 steps incl. runs that end in an error; fixed: RET chains that outnumber calls and then fail, recursion 600 deep with rendering, and 33 500 deep across the i16 level boundary; oracle: an independent tracer (own decoder, own condition table) builds the expected entries (source, target, kind, level, repeat count) and call stack, compared with the structured views after every step; trace(), call_stack() and to_string() must return after every step and after the final error, with one trace line per entry; non-trivial = ≥1 call, ≥1 taken and ≥1 untaken conditional branch; distinct by hash(case)".into()
     }
     fn required_classes(&self, _tier: Tier) -> Vec<String> {
         ["returns>calls", "repeated-jump>=3x", "ends-in-error", "call-and-return"].iter().map(|s| s.to_string()).collect()
